@@ -1,8 +1,10 @@
 import Mieru.Proofs.Arq
 import Mieru.Proofs.Duplex
+import Mieru.Proofs.Flow
 import Mieru.Model.Retx
 import Mieru.Gen.Consts
 import Mieru.Gen.Facts
+import Mieru.Gen.UdpFacts
 /-!
 # C02 — UDP transport: reliable, ordered, exactly-once stream over a faulty network; progress
 
@@ -14,12 +16,15 @@ Progress is proved as: no reachable state is stuck (from every state with undeli
 a finite run of protocol steps — retransmit the lowest outstanding segment or open the window by one
 ack round, deliver — after which strictly more is delivered) and nothing ever undoes progress;
 under weak fairness of those steps the transfer therefore completes.
-Partial (named, not proved): real-time liveness (RTO arithmetic, CUBIC, the Go scheduler), the
-receive-window / back-pressure path (it needs an application that keeps reading), abandonment after
-`txCountLimit` transmissions of one segment that were all lost.
+The second half of this file (`Mieru.Model.Flow`) repeats safety and progress in a model that CAN stall:
+receive capacity, advertised window, send limits, `txCount` and abandonment, an application that reads.
+Partial (named, not proved): real-time liveness (RTO / back-off arithmetic, CUBIC, the Go scheduler;
+fairness as a temporal formula), uint32 wrap of sequence numbers, several sessions per underlay.
 Tie to the code: tie T — `Mieru.Gen.Facts` (the discard and receive predicates, the sequence
-counters) and tie C — every UDP run of harness/props/c02.go is replayed through `Arq.acceptAll`
-(trace inclusion), whose soundness is `accepted_history_safe` below.
+counters), `Mieru.Gen.UdpFacts` (window stores, guards) and tie C — every UDP run of harness/props/c02.go
+is replayed through `Arq.acceptAll` (trace inclusion, soundness: `accepted_history_safe`); the real input /
+output functions of one packet session are compared op by op with `Flow.recvOp` / `Flow.round`
+(harness/props/c02_flow.go); both endpoints' window state is sampled live (harness/sim/observe.go).
 -/
 namespace Mieru.C02
 open Mieru Mieru.Arq
@@ -306,5 +311,231 @@ example : (acceptAll init [.write 7, .send 0 7, .send 0 7, .deliver 0 7, .delive
 example : acceptAll init [.write 7, .send 0 7, .ack 1] = none ∧
     acceptAll init [.write 7, .send 0 7, .send 0 9] = none ∧
     acceptAll init [.write 7, .write 8, .send 1 8] = none := by decide
+
+/-! ## Flow control, bounded buffers, retransmission budget (`Mieru.Model.Flow`)
+
+`Mieru.Arq` cannot stall: its window never closes, its buffers are unbounded and retransmission is always
+enabled. `Mieru.Flow` has what the code has: `recvBuf`/`recvQueue` of capacity `segmentTreeCapacity`
+with arriving segments dropped when `receiveWindowSize() ≤ 0`, the advertised window stored in
+`remoteWindowSize` and gating first transmissions, `sendBuf`/`sendQueue` limits, `txCount` per
+segment and abandonment at `txCountLimit`, and an application that reads (`Step.appRead`). -/
+
+/-- the parameters the code compiles to (regenerated constants) -/
+def codeParams : Flow.Params :=
+  ⟨Gen.segmentTreeCapacity.toNat, Gen.minWindowSize.toNat, Gen.maxWindowSize.toNat, Gen.txCountLimit.toNat⟩
+
+theorem flow_params_ok : codeParams.Ok := by constructor <;> decide
+
+/-- Safety is unchanged by flow control: the projection of every reachable state to `Mieru.Arq` satisfies
+    the whole safety invariant of that model; what was moved to the receive queue is a prefix of what
+    was written, and what the application has read is a prefix of that. -/
+theorem flow_safety_unchanged {P : Flow.Params} (ok : P.Ok) {s : Flow.St} (h : Flow.Reach P s) :
+    Arq.Inv (Flow.toArq s) ∧ s.delivered = s.segs.take s.nextRecv ∧
+    s.delivered.take s.read = s.segs.take s.read ∧ s.read ≤ s.nextRecv := by
+  have hS := Flow.reach_invS ok h
+  have hlen : s.delivered.length = s.nextRecv := by
+    rw [hS.deliv, List.length_take]; have := hS.order; omega
+  have hr := hS.rd
+  refine ⟨Flow.toArq_inv hS, hS.deliv, ?_, by omega⟩
+  rw [hS.deliv, List.take_take]
+  congr 1
+  omega
+
+/-- No buffer ever overflows, so no `segmentTree.Insert` of the data path can fail: recvBuf and recvQueue
+    together hold at most `cap` segments, sendBuf at most `cap − 1`, sendQueue at most `cap − 1`, and
+    every advertised window fits its 16-bit field as long as `cap` does. -/
+theorem flow_buffers_never_overflow {P : Flow.Params} (ok : P.Ok) {s : Flow.St} (h : Flow.Reach P s) :
+    s.recvBuf.length + Flow.qlen s ≤ P.cap ∧ s.qLo - s.lo < P.cap ∧ s.segs.length - s.qLo < P.cap ∧
+    s.recvBuf.length ≤ s.qLo - s.nextRecv ∧ (∀ a ∈ s.acked, a.wnd ≤ P.cap) := by
+  have hS := Flow.reach_invS ok h
+  exact ⟨hS.capR, hS.capS, hS.capQ, Flow.recvBuf_le hS, fun a ha => (hS.ackHist a ha).2⟩
+
+/-- The head segment is never starved: whenever the application has read everything queued, the
+    receive window is open (out-of-order segments alone cannot fill the capacity, because the sender
+    keeps at most `cap − 1` segments outstanding), so the segment the receiver is waiting for is
+    accepted and released when it arrives — whatever else is buffered. -/
+theorem head_never_starved {P : Flow.Params} (ok : P.Ok) {s : Flow.St} (h : Flow.Reach P s)
+    (hr : s.read = s.delivered.length) (p : Nat) :
+    0 < Flow.rwin P s ∧ s.nextRecv < (Flow.recv P s ⟨s.nextRecv, p⟩).nextRecv := by
+  have hw := Flow.window_open_when_read (Flow.reach_invS ok h) hr
+  exact ⟨hw, Flow.recv_head_advances P s p hw⟩
+
+/-- Zero-window recovery by one ack round: from every reachable state of a live session — in particular
+    one where the sender's copy of the window is 0 and nothing is outstanding — after the application
+    has read what is queued, one ack (emitted by the heartbeat or by any data receipt) that reaches the
+    sender makes `remoteWindowSize` positive again; nothing is lost or reordered by it. -/
+theorem zero_window_recovery {P : Flow.Params} (ok : P.Ok) {s : Flow.St} (h : Flow.Reach P s) (hd : s.dead = false) :
+    ∃ t, Flow.Steps P s t ∧ 0 < t.rwnd ∧ t.qLo = s.qLo ∧ t.nextRecv = s.nextRecv ∧ t.segs = s.segs ∧ t.dead = false := by
+  obtain ⟨t, st, hrw, _, e1, e2, e3, e4, _⟩ := Flow.ack_round_reopens ok h hd
+  exact ⟨t, st, hrw, e1, e2, e3, e4⟩
+
+/-- No stuck state, in the model that can stall: a live session whose awaited segment has not used up
+    its retransmission budget can always advance the receiver by finitely many enabled steps. -/
+theorem flow_no_stuck_state {P : Flow.Params} (ok : P.Ok) {s : Flow.St} (h : Flow.Reach P s) (hd : s.dead = false)
+    (hu : s.nextRecv < s.segs.length) (hb : ∀ n, s.tx[s.nextRecv]? = some n → n < P.limit) :
+    ∃ t, Flow.Steps P s t ∧ s.nextRecv < t.nextRecv ∧ t.segs = s.segs ∧ t.dead = false := by
+  obtain ⟨t, st, a, b, c, _⟩ := Flow.no_stuck ok h hd hu hb
+  exact ⟨t, st, a, b, c⟩
+
+/-- Completion without abandonment under a cooperative schedule: everything written can be delivered
+    and the session is still alive, from every reachable state of a live session in which no needed
+    segment has exhausted its budget. -/
+theorem flow_can_complete {P : Flow.Params} (ok : P.Ok) {s : Flow.St} (h : Flow.Reach P s) (hd : s.dead = false)
+    (hb : Flow.Budget P s) : ∃ t, Flow.Steps P s t ∧ t.delivered = s.segs ∧ t.dead = false := by
+  obtain ⟨t, st, hn, hs, hdt⟩ := Flow.can_complete ok _ s h hd hb (Nat.le_refl _)
+  refine ⟨t, st, ?_, hdt⟩
+  have := (Flow.reach_invS ok (Flow.reach_steps h st)).deliv
+  rw [this, hn, List.take_length, hs]
+
+/-- Abandonment: a session is given up only when one sequence number, still unacknowledged, has been
+    put on the wire exactly `txCountLimit` times, and no cumulative ack the sender ever processed covers it. -/
+theorem abandon_means_limit_transmissions {P : Flow.Params} (ok : P.Ok) {s : Flow.St} (h : Flow.Reach P s)
+    (hd : s.dead = true) :
+    ∃ k, s.lo ≤ k ∧ k < s.qLo ∧ Flow.emitted s k = P.limit ∧ (∀ a ∈ s.ackIn, a ≤ k) := by
+  have hT := Flow.reach_invT ok h
+  obtain ⟨k, h1, h2, h3⟩ := hT.deadW hd
+  refine ⟨k, h1, h2, ?_, fun a ha => Nat.le_trans (hT.ackLo a ha) h1⟩
+  have := hT.txCnt k h2
+  rw [h3] at this
+  exact (Option.some.inj this).symm
+
+/-- … hence the connection is not abandoned while every sequence number has been transmitted fewer
+    than `txCountLimit` times. -/
+theorem not_abandoned_below_limit {P : Flow.Params} (ok : P.Ok) {s : Flow.St} (h : Flow.Reach P s)
+    (hl : ∀ k, Flow.emitted s k < P.limit) : s.dead = false := by
+  cases hd : s.dead with
+  | false => rfl
+  | true =>
+    obtain ⟨k, _, _, e, _⟩ := abandon_means_limit_transmissions ok h hd
+    have := hl k
+    omega
+
+/-- `txCount` is the number of transmissions on the wire, never above the limit -/
+theorem txcount_is_emissions {P : Flow.Params} (ok : P.Ok) {s : Flow.St} (h : Flow.Reach P s) (k : Nat) (hk : k < s.qLo) :
+    s.tx[k]? = some (Flow.emitted s k) ∧ 1 ≤ Flow.emitted s k ∧ Flow.emitted s k ≤ P.limit := by
+  have hT := Flow.reach_invT ok h
+  have e := hT.txCnt k hk
+  exact ⟨e, hT.txLim k _ e⟩
+
+/-- The deterministic output round that the harness runs against the real `runOutputOncePacket`
+    (`Flow.round`: the retransmission scan applies `Retx.step` to every segment of sendBuf in order, then
+    the send loop) takes only steps the relational model allows: it abandons exactly when a segment of
+    sendBuf has used up its budget (`Step.abandon`); otherwise no sequence number is lost, duplicated or
+    reordered between sendBuf and sendQueue, sendBuf stays below the capacity, and a first transmission
+    happens only with the remote window open, the congestion window not used up and
+    `sendBuf.Remaining() > 1` (the guards of `Step.sendNew`). -/
+theorem output_round_respects_flow (P : Flow.Params) (er el cwnd : Nat) (ex : Nat → Bool) (s : Flow.Snd)
+    (hs : s.dead = false) (hcap : s.buf.length < P.cap) :
+    ((Flow.round P er el cwnd ex s).1.dead = true ↔ ∃ g ∈ s.buf, P.limit ≤ g.r.txCount) ∧
+    ((Flow.round P er el cwnd ex s).1.dead = false →
+      (Flow.round P er el cwnd ex s).1.buf.map (·.seq) ++ (Flow.round P er el cwnd ex s).1.queue =
+        s.buf.map (·.seq) ++ s.queue ∧
+      (Flow.round P er el cwnd ex s).1.buf.length < P.cap ∧
+      (s.buf.length < (Flow.round P er el cwnd ex s).1.buf.length →
+        0 < s.rwnd ∧ s.buf.length < cwnd ∧ s.buf.length + 1 < P.cap)) := by
+  have hdi := Flow.scan_dead_iff P.limit er el ex s.buf
+  unfold Flow.round
+  simp only [hs, Bool.false_eq_true, if_false]
+  generalize hsc : Flow.scan P.limit er el ex s.buf = sc at hdi
+  obtain ⟨b, c, d⟩ := sc
+  simp only at hdi ⊢
+  cases d with
+  | true =>
+    simp only [if_true]
+    refine ⟨⟨fun _ => hdi.mp rfl, fun _ => by first | rfl | trivial⟩, fun h => ?_⟩
+    first | cases h | exact h.elim
+  | false =>
+    have hall : ∀ g ∈ s.buf, g.r.txCount < P.limit := by
+      intro g hg
+      by_cases h : P.limit ≤ g.r.txCount
+      · have := hdi.mpr ⟨g, hg, h⟩; cases this
+      · omega
+    have ha := Flow.scan_alive P.limit er el ex s.buf hall
+    rw [hsc] at ha
+    simp only at ha
+    have hbl : b.length = s.buf.length := by rw [ha.1]; simp
+    have hbs : b.map (·.seq) = s.buf.map (·.seq) := by rw [ha.1]; simp [Function.comp_def]
+    have sp := Flow.sendLoop_spec P.cap cwnd s.rwnd (s.queue.length + 1) b s.queue c (by omega)
+    simp only [Bool.false_eq_true, if_false]
+    generalize Flow.sendLoop P.cap cwnd s.rwnd (s.queue.length + 1) b s.queue c = r at sp
+    obtain ⟨b', q', t'⟩ := r
+    simp only at sp ⊢
+    obtain ⟨a1, a2, a3, a4, a5⟩ := sp
+    refine ⟨⟨fun h => ?_, fun h => ?_⟩, fun _ => ⟨by rw [a1, hbs], a2, fun hl => ?_⟩⟩
+    · first | exact h.elim | (rw [hs] at h; cases h)
+    · obtain ⟨g, hg, hl⟩ := h; have := hall g hg; omega
+    · rw [hbl] at a4 a5; exact a5 (by omega)
+
+/-! ### Structural ties of the flow-control model (regenerated from session.go, `Mieru.Gen.UdpFacts`) -/
+
+/-- `Flow.Step.recvAck` stores the window of EVERY ack: in `inputAck` the store of the advertised window
+    is nested in no condition (in `inputData` / `moveRecvBufToRecvQueue` only in the type assertion of
+    the metadata). A store that depends on whether the ack acknowledged something new — which would lose
+    the pure window update that reopens a closed window — changes this list. -/
+theorem window_stored_by_every_ack :
+    Gen.UdpFacts.remoteWindowStores =
+      [("newSessionWithServerUserPolicy", "minWindowSize", []),
+       ("Session.inputData", "uint32(das.windowSize)", ["ok"]),
+       ("Session.inputAck", "uint32(das.windowSize)", []),
+       ("Session.moveRecvBufToRecvQueue", "uint32(das.windowSize)", ["ok"])] := by decide
+
+/-- `Flow.rwin` and `Flow.sendWindow` are the code's window formulas -/
+theorem window_formulas :
+    (Gen.UdpFacts.recvPathIfs.filter (fun x => x.1 == "Session.receiveWindowSize" || x.1 == "Session.sendWindowSize")) =
+      [("Session.receiveWindowSize", "return", "return mathext.Max(0, segmentTreeCapacity-s.recvBuf.Len()-s.recvQueue.Len())"),
+       ("Session.sendWindowSize", "return", "return mathext.Max(0, mathext.Min(int(s.cubicSendAlgorithm.CongestionWindowSize())-s.sendBuf.Len(), int(s.remoteWindowSize.Load())))")] := by
+  decide
+
+/-- the guards of `Flow.recv` (window closed ⇒ drop; insertion failed ⇒ drop) and of `Flow.Step.sendNew` /
+    `Flow.sendLoop` / `Flow.Step.write` (`sendBuf.Remaining() <= 1`, the window test, `sendQueue.Remaining() <= nFragment`)
+    are the ones in the source, in this order -/
+theorem flow_guards :
+    Gen.UdpFacts.inputDataGuards =
+      [("s.waitForRecvQueueSpace()", "…"), ("s.receiveWindowSize() <= 0", "return nil"),
+       ("!s.recvBuf.Insert(seg)", "return nil"), ("s.waitForRecvQueueSpace()", "…")] ∧
+    Gen.UdpFacts.sendPathGuards =
+      [("Session.runOutputOncePacket", "if time.Now().UnixMicro() >= s.nextRetransmissionTime.Load()"),
+       ("Session.runOutputOncePacket", "skipSendNewSegment := s.sendWindowSize() <= 0"),
+       ("Session.runOutputOncePacket", "if s.sendQueue.Len() > 0 && !skipSendNewSegment"),
+       ("Session.runOutputOncePacket", "if s.sendBuf.Remaining() <= 1"),
+       ("Session.runOutputOncePacket", "if s.shouldDeferNextPacketData()"),
+       ("Session.writeChunk", "for s.sendQueue.Remaining() <= nFragment")] := by decide
+
+/-! ### Non-vacuity of the flow-control theorems -/
+
+/-- the model CAN stall: a reachable state in which the remote window is closed (`rwnd = 0`), nothing is
+    outstanding, and a segment is waiting in the send queue -/
+example : ∃ s, Flow.Reach ⟨2, 1, 1, 2⟩ s ∧ s.rwnd = 0 ∧ s.lo = s.qLo ∧ s.qLo < s.segs.length ∧ s.dead = false ∧
+    Flow.qlen s = 2 := by
+  let P : Flow.Params := ⟨2, 1, 1, 2⟩
+  have r0 : Flow.Reach P (Flow.init P) := Flow.Reach.init
+  have r1 := Flow.Reach.step r0 (Flow.Step.write _ 7 (by decide))
+  have r2 := Flow.Reach.step r1 (Flow.Step.sendNew _ 1 7 rfl (by decide) (by decide) (by decide) (by decide) (by decide))
+  have r3 := Flow.Reach.step r2 (Flow.Step.write _ 8 (by decide))
+  have r4 := Flow.Reach.step r3 (Flow.Step.recvData _ ⟨0, 7⟩ (by decide))
+  have r5 := Flow.Reach.step r4 (Flow.Step.sendAck _)
+  have r6 := Flow.Reach.step r5 (Flow.Step.recvAck _ ⟨1, 1⟩ (by decide) (by decide))
+  have r7 := Flow.Reach.step r6 (Flow.Step.sendNew _ 1 8 (by decide) (by decide) (by decide) (by decide) (by decide) (by decide))
+  have r8 := Flow.Reach.step r7 (Flow.Step.recvData _ ⟨1, 8⟩ (by decide))
+  have r9 := Flow.Reach.step r8 (Flow.Step.sendAck _)
+  have r10 := Flow.Reach.step r9 (Flow.Step.recvAck _ ⟨2, 0⟩ (by decide) (by decide))
+  have r11 := Flow.Reach.step r10 (Flow.Step.write _ 9 (by decide))
+  exact ⟨_, r11, by decide, by decide, by decide, by decide, by decide⟩
+
+/-- … and abandonment is reachable: every transmission of segment 0 lost, budget 2 -/
+example : ∃ s, Flow.Reach ⟨2, 1, 1, 2⟩ s ∧ s.dead = true ∧ Flow.emitted s 0 = 2 ∧ s.ackIn = [] := by
+  let P : Flow.Params := ⟨2, 1, 1, 2⟩
+  have r0 : Flow.Reach P (Flow.init P) := Flow.Reach.init
+  have r1 := Flow.Reach.step r0 (Flow.Step.write _ 7 (by decide))
+  have r2 := Flow.Reach.step r1 (Flow.Step.sendNew _ 1 7 rfl (by decide) (by decide) (by decide) (by decide) (by decide))
+  have r3 := Flow.Reach.step r2 (Flow.Step.dropData _ ⟨0, 7⟩)
+  have r4 := Flow.Reach.step r3 (Flow.Step.retransmit _ 0 7 1 (by decide) (by decide) (by decide) (by decide) (by decide))
+  have r5 := Flow.Reach.step r4 (Flow.Step.dropData _ ⟨0, 7⟩)
+  have r6 := Flow.Reach.step r5 (Flow.Step.abandon _ 0 2 (by decide) (by decide) (by decide) (by decide))
+  exact ⟨_, r6, by decide, by decide, by decide⟩
+
+/-- a full receive queue closes the window and the head segment is dropped until the application reads -/
+example : (Flow.recvOp ⟨2, 1, 1, 2⟩ (Flow.recvOp ⟨2, 1, 1, 2⟩ (Flow.recvOp ⟨2, 1, 1, 2⟩ (Flow.init ⟨2, 1, 1, 2⟩)
+    (.data 0 5)) (.data 1 6)) (.data 2 7)).nextRecv = 2 := by decide
 
 end Mieru.C02
